@@ -168,6 +168,31 @@ def run(prog: Program, res: Result, tier: str) -> None:
                 res.bad("R4", m_, rets[0] if rets else m_.node, f"{nm} is `{got}`, expected `{w}`", key=key)
     res.trusted_base += ["exact rational arithmetic: the identities hold before float32 rounding",
                          "numba evaluates the recurrences in the written statement order"]
+    # ---- R2 (cont.) the identities above are over the rationals; in the kernel the counts are integers: a third (or higher) power
+    # of a count is taken in floating point, because count ** 3 wraps int64 at count = 2**21 (F42) -----------------------------
+    from ..dataflow import flow_of as _flow_of
+    fm = _flow_of(mrg)
+    npow = 0
+    for sub in body_walk(mrg.node):
+        if isinstance(sub, ast.BinOp) and isinstance(sub.op, ast.Pow) and isinstance(sub.right, ast.Constant) and isinstance(sub.right.value, int) and sub.right.value >= 2:
+            st = sub
+            while st is not None and not isinstance(st, ast.stmt):
+                st = parent(st)
+            base = fm.expand(sub.left, fm.cfg.node_for(st))
+            txt = norm(base)
+            if "'count'" not in txt and '"count"' not in txt:
+                continue
+            npow += 1
+            as_float = any(isinstance(n_, ast.Call) and ((isinstance(n_.func, ast.Attribute) and n_.func.attr == "astype") or norm(n_.func) in ("np.float64", "float"))
+                           for n_ in ast.walk(base))
+            key = f"count-power:{norm(sub)[:40]}"
+            if sub.right.value >= 3 and not as_float:
+                res.bad("R2", mrg, sub, f"`{norm(sub)}` is an integer power: it wraps int64 once the merged count reaches 2**21 samples, and the merged fourth moment "
+                        "(kurtosis) is garbage from there on", key=key)
+            else:
+                res.ok("R2", mrg, sub, f"`{norm(sub)}`: " + ("taken in floating point" if as_float else "a square of a count (no overflow below 3e9 samples)"), key=key)
+    if npow < 3:
+        raise AnalysisError(f"only {npow} powers of a count found in add_online_moments (5 confirmed by hand)")
     res.floor("R1", 8)
     res.floor("R2", 20 if tier == "thorough" else 19)
     res.floor("R3", 11)
@@ -177,6 +202,8 @@ def run(prog: Program, res: Result, tier: str) -> None:
 KF = "sigpyproc/core/kernels.py"
 SF = "sigpyproc/core/stats.py"
 MUTANTS = [
+    {"id": "c10-revert-F42", "file": "sigpyproc/core/kernels.py", "expect": "C10.R2",
+     "old": "        / (ncount**3)\n", "new": "        / (c[\"count\"] ** 3)\n"},
     {"id": "c10-m4-coeff", "file": KF, "expect": "C10.R1",
      "old": "m4 += term * delta_n2 * (n * n - 3 * n + 3) + 6 * delta_n2 * m2 - 4 * delta_n * m3", "new": "m4 += term * delta_n2 * (n * n - 3 * n + 1) + 6 * delta_n2 * m2 - 4 * delta_n * m3"},
     {"id": "c10-m4-drop-term", "file": KF, "expect": "C10.R1",
